@@ -24,80 +24,7 @@ using namespace sim; using namespace codec;
 extern "C" __attribute__((used)) const char* __asan_default_options() { return "exitcode=77:detect_leaks=0:abort_on_error=0:allocator_may_return_null=1"; }
 extern "C" __attribute__((used)) const char* __ubsan_default_options() { return "print_stacktrace=1:halt_on_error=1"; }
 
-// ============================================================================ simulated disk
-namespace simdisk {
-struct File {
-    Bytes data;                       // what has become durable
-    bool crashed; int64_t wfail_at; int wfail_errno; bool wfail_recover; int wfail_calls_left;
-    int64_t reio_at; int short_max; uint64_t short_seed; uint64_t write_calls, read_calls; uint64_t torn;
-    File() : crashed(false), wfail_at(-1), wfail_errno(ENOSPC), wfail_recover(false), wfail_calls_left(0), reio_at(-1), short_max(0), short_seed(1), write_calls(0), read_calls(0), torn(0) {}
-};
-struct Cookie { File* f; size_t pos; Rng rng; Bytes view; bool reading; };
-static std::map<std::string, File> files; static int bufsz = -1; static std::map<std::string, uint64_t> fired;
-static ssize_t ck_read(void* c, char* buf, size_t n) {
-    Cookie* k = (Cookie*)c; File* f = k->f; ++f->read_calls;
-    if (k->pos >= k->view.size()) return 0;
-    if (f->reio_at >= 0 && (int64_t)k->pos >= f->reio_at) { errno = EIO; fired["fault.read_eio"]++; return -1; }
-    size_t m = std::min(n, k->view.size() - k->pos);
-    if (f->reio_at >= 0 && (int64_t)(k->pos + m) > f->reio_at) m = (size_t)(f->reio_at - (int64_t)k->pos);
-    if (f->short_max > 0 && m > 1) { size_t lim = 1 + (size_t)k->rng.below((uint64_t)f->short_max); if (lim < m) { m = lim; fired["fault.short_read"]++; } }
-    memcpy(buf, k->view.data() + k->pos, m); k->pos += m; return (ssize_t)m;
-}
-static ssize_t ck_write(void* c, const char* buf, size_t n) {
-    Cookie* k = (Cookie*)c; File* f = k->f; ++f->write_calls;
-    if (f->crashed) return (ssize_t)n;                 // the process is gone: nothing more reaches the disk
-    if (f->wfail_at >= 0 && (int64_t)(f->data.size() + n) > f->wfail_at) {
-        size_t room = (int64_t)f->data.size() < f->wfail_at ? (size_t)(f->wfail_at - (int64_t)f->data.size()) : 0;
-        if (f->wfail_recover && f->wfail_calls_left-- <= 0) { f->wfail_at = -1; }       // space was freed: later writes succeed again
-        else { f->data.insert(f->data.end(), buf, buf + room); if (room) f->torn++; errno = f->wfail_errno; fired["fault.write_error"]++; return (ssize_t)room; }
-    }
-    f->data.insert(f->data.end(), buf, buf + n); return (ssize_t)n;
-}
-static int ck_seek(void*, off64_t*, int) { errno = ESPIPE; return -1; }
-static int ck_close(void* c) { delete (Cookie*)c; return 0; }
-static FILE* open(const std::string& path, const char* mode, const Bytes* view_override = 0) {
-    bool wr = strchr(mode, 'w') != 0; File& f = files[path]; if (wr) { f.data.clear(); }
-    Cookie* k = new Cookie(); k->f = &f; k->pos = 0; k->rng.reseed(f.short_seed); k->reading = !wr; if (!wr) k->view = view_override ? *view_override : f.data;
-    cookie_io_functions_t io = { ck_read, ck_write, ck_seek, ck_close };
-    FILE* fp = fopencookie(k, wr ? "w" : "r", io);
-    if (fp && bufsz >= 0) { if (bufsz == 0) setvbuf(fp, 0, _IONBF, 0); else setvbuf(fp, 0, _IOFBF, (size_t)bufsz); }
-    return fp;
-}
-static const Bytes* read_view = 0;     // bytes served for the next read-open by name (after read-side faults)
-}
-
-extern "C" {
-typedef FILE* (*fopen_t)(const char*, const char*);
-FILE* fopen(const char* path, const char* mode) {
-    if (path && strncmp(path, "/simdisk/", 9) == 0) return simdisk::open(path, mode, simdisk::read_view);
-    static fopen_t real = (fopen_t)dlsym(RTLD_NEXT, "fopen"); return real(path, mode);
-}
-FILE* fopen64(const char* path, const char* mode) {
-    if (path && strncmp(path, "/simdisk/", 9) == 0) return simdisk::open(path, mode, simdisk::read_view);
-    static fopen_t real = (fopen_t)dlsym(RTLD_NEXT, "fopen64"); return real(path, mode);
-}
-}
-
-// ============================================================================ reference savefile format
-struct Rec { uint32_t sec, usec, caplen, len; Bytes data; size_t hdr_off; };
-static Bytes ref_global_header(uint32_t linktype) {
-    Bytes b; auto le32 = [&](uint32_t v) { b.push_back(v & 0xff); b.push_back((v >> 8) & 0xff); b.push_back((v >> 16) & 0xff); b.push_back(v >> 24); };
-    auto le16 = [&](uint16_t v) { b.push_back(v & 0xff); b.push_back(v >> 8); };
-    le32(0xa1b2c3d4); le16(2); le16(4); le32(0); le32(0); le32(65535); le32(linktype); return b;
-}
-static void ref_append(Bytes& b, uint32_t sec, uint32_t usec, uint32_t len, const Bytes& data) {
-    auto le32 = [&](uint32_t v) { b.push_back(v & 0xff); b.push_back((v >> 8) & 0xff); b.push_back((v >> 16) & 0xff); b.push_back(v >> 24); };
-    le32(sec); le32(usec); le32((uint32_t)data.size()); le32(len); b.insert(b.end(), data.begin(), data.end());
-}
-static uint32_t rd32(const Bytes& b, size_t o) { return (uint32_t)b[o] | (uint32_t)b[o + 1] << 8 | (uint32_t)b[o + 2] << 16 | (uint32_t)b[o + 3] << 24; }
-// reads the well-formed format; a record that is not wholly present ends the file
-static bool ref_read(const Bytes& b, std::vector<Rec>& out, uint32_t* linktype) {
-    out.clear(); if (b.size() < 24 || rd32(b, 0) != 0xa1b2c3d4) return false;
-    if (linktype) *linktype = rd32(b, 20);
-    size_t o = 24;
-    while (o + 16 <= b.size()) { Rec r; r.sec = rd32(b, o); r.usec = rd32(b, o + 4); r.caplen = rd32(b, o + 8); r.len = rd32(b, o + 12); r.hdr_off = o; if (r.caplen > 262144 || o + 16 + r.caplen > b.size()) break; r.data.assign(b.begin() + o + 16, b.begin() + o + 16 + r.caplen); out.push_back(r); o += 16 + r.caplen; }
-    return true;
-}
+#include "simdisk.hpp"
 
 // direct construction of the link type's class, exactly what the capture handlers dispatch to
 static Tins::PDU* construct(int dlt, const Bytes& f) {
